@@ -22,6 +22,7 @@ TraceInit ==
     /\ key = [o \in Objects |-> "none"]
     /\ ref = [o \in Objects |-> 0]
     /\ gen = 0
+    /\ dirty = {}
     /\ ev = [op |-> "Init"]
 
 Ev == Traces[tid].events[l]
@@ -32,7 +33,7 @@ Step(e) ==
       [] e.op = "Encrypt"     -> Encrypt(e.o, e.m)
       [] e.op = "Decrypt"     -> Decrypt(e.o, e.m)
       [] e.op = "GenerateKey" -> GenerateKey(e.o)
-      [] e.op = "External"    -> External(e.p, e.c)
+      [] e.op = "External"    -> External(e.p, e.c) \/ ExternalDuring(e.p, e.c)
       [] e.op = "ExternalDir" -> ExternalDir(e.p, e.b)
 
 TraceNext ==
@@ -59,7 +60,7 @@ A_Verbatim ==
     \A p \in Paths : (file[p] # "absent" /\ ev'.op \notin EnvOps) => file'[p] = file[p]
 A_BadAlwaysRejected ==
     \A o \in Objects :
-        (ev'.op = "Enter" /\ ev'.o = o /\ file[PathOf[o]] \in BadContents) =>
+        (ev'.op = "Enter" /\ ev'.o = o /\ ref[o] = 0 /\ file[PathOf[o]] \in BadContents) =>
             ev'.out = "EncryptionError" /\ ref'[o] = ref[o]
 A_NestedShareKey ==
     \A o \in Objects :
